@@ -16,9 +16,9 @@ claimed = {
          "must-execute + origin analysis of hint outputs; polynomial bound evaluation; interprocedural constant propagation", "§4 C05"),
  "C06": ("strong structural claim (level other): enum-dispatch path analysis for every RangeCheckerType constant, constructor paths (Defer iff COMMIT, every kind whose checks are collected has its drain deferred, installed checker matches kind, selector conditions), the chip owning the collected checks is never updated through a copy (value receivers / dereferences located on the SSA), drain coverage and alignment refusals, bit-decomposition width, RangeCheck limb rules (linear forms). Ranges are not evaluated numerically.",
          "CFG path analysis per enum constant + linear-form evaluation + loop coverage", "§4 C06"),
- "C07": ("narrow structural clauses only (level other): zero branch of Inverse, Reduce's constant width ≥144 from a never-reassigned global, every reducing method returns a canonically range-checked hint output; MulAcc accumulator discipline (owned and dead after the call) at every MulAcc site of the goldilocks package, so results do not depend on the R1CS builder re-using storage. Numerical exactness is not decided.",
+ "C07": ("narrow structural clauses only (level other): zero branch of Inverse, Reduce's constant width ≥144 from a never-reassigned global, every reducing method returns a canonically range-checked hint output; MulAcc accumulator discipline (owned and dead after the call) at every MulAcc site of the goldilocks package, so results do not depend on the R1CS builder re-using storage; every returned value of a base-field gadget is computed from each of its operands (parameter relevance). Numerical exactness is not decided.",
          "expression-shape matching + origin analysis + ownership/liveness analysis of MulAcc accumulators", "§4 C07 / §10.8"),
- "C08": ("narrow structural clauses only (level other): InverseExtension asserts the product of both coordinates' zero tests is 0; DivExtension forwards its divisor to it; every quotient width reaching the witnessed reduction admits a single result (W1) with R1; the unreduced intermediate values of the extension operations fit their reduction and never reach the BN254 field in any calling context (magnitude analysis W2). Field identities are not decided.",
+ "C08": ("narrow structural clauses only (level other): InverseExtension asserts the product of both coordinates' zero tests is 0; DivExtension forwards its divisor to it; every quotient width reaching the witnessed reduction admits a single result (W1) with R1; the unreduced intermediate values of the extension operations fit their reduction and never reach the BN254 field in any calling context (magnitude analysis W2); every value an extension gadget returns is computed from each of its operands (parameter relevance, ExpExtension exempt). Field identities are not decided.",
          "expression-shape matching + must-call + abstract interpretation of magnitudes", "§4 C08 / §10.10"),
  "C09": ("narrow structural clauses only (level other): inputs reduced first (full-range loop, only reduction results reach the sponge); permutation is a function (R1/W1 of the s-box reductions); sibling constant tables agree and are canonical; the sponge absorbs in overwrite mode and squeezes from the rate part only (loop bounded by SPONGE_RATE). Equality with plonky2 for all inputs is not decided.",
          "origin analysis + constant-table comparison from type-checked syntax", "§4 C09"),
